@@ -249,8 +249,8 @@ static hwloc_topology_t get_topo(const char *s, const char *flt) {
 static void exec_export(unsigned long flags, size_t cap, const char *s, const char *flt) {
   hwloc_topology_t t = get_topo(s, flt);
   if (!t) { fputs("load fail\n", fout); return; }
-  char *buf = malloc(cap ? cap : 1);
-  memset(buf, 0xAA, cap ? cap : 1);
+  char *buf = malloc(cap);        /* exact size, also for 0 (non-NULL, no accessible byte: any write is an ASan report) */
+  if (cap) memset(buf, 0xAA, cap);
   errno = 0;
   int r = hwloc_topology_export_synthetic(t, buf, cap, flags);
   fprintf(fout, "ret %d buf ", r);
